@@ -344,7 +344,7 @@ def triangular_impulse(ctx, R="R-C07-triangle-pair"):
             w = res["witness"]
             ctx.bad(R, f, prim[0]["stmt"], "the %s impulse response at sample t is not the inverse transform of the triangle: at %s (lower edge width m-l, upper "
                     "edge width r-m) it is %s, the closed form gives %s; impulse and frequency responses of such a filter no longer agree"
-                    % (mode, w, res["values"][0], res["values"][1]), "impulse response is the inverse transform of the triangle")
+                    % (mode, w, res["values"][0], res["values"][1]), "impulse response is the inverse transform of the triangle", robust=True)
         elif res["verdict"] in ("equal", "equal-on-grid"):
             ctx.ok(R, f.loc(prim[0]["stmt"]), "%s: h(t) matches the inverse transform of the triangle for both edge orderings (%s)"
                    % (mode, "normal form" if res["verdict"] == "equal" else "floating-point agreement at %d grid points" % res["points"]))
